@@ -303,4 +303,86 @@ Proof.
     + intros f0. apply B. exact Eb.
 Qed.
 
+
+Lemma check_block_sound k code : forall l pc n, Validate.check_block k code l pc = Some n ->
+  forall f, simulates code pc n (blockf f l).
+Proof.
+  induction l as [|x t IHl]; intros pc0 n Hb f.
+  - cbn in Hb. inversion Hb; subst. apply simulates_nil.
+  - cbn [Validate.check_block] in Hb. fold (Validate.check_block k code) in Hb.
+    destruct (check_stmt k code pc0 x) as [n1|] eqn:E1; [|discriminate].
+    destruct (Validate.check_block k code t (pc0 + n1)) as [m|] eqn:E2; [|discriminate].
+    inversion Hb; subst. apply simulates_cons; [apply (check_stmt_sound k); exact E1|apply IHl; exact E2].
+Qed.
+
+Lemma exec_program_blockf f : forall p st, Sem.exec_program num_text is_negative f p st = blockf f p st.
+Proof.
+  induction p as [|s t IH]; intros st; [reflexivity|].
+  cbn [Sem.exec_program]. change (blockf f (s :: t) st) with (match exec f s st with Done st' => blockf f t st' | o => o end).
+  destruct (exec f s st); try reflexivity. apply IH.
+Qed.
+
+(** the declarations in front of the program *)
+Lemma run_dims code : forall dims pc0 r t vs ps e sc,
+  code_at code pc0 (dims_code dims) ->
+  exists r', stepn (length (dims_code dims)) code (mk_m pc0 (r :: t) vs ps e sc false)
+             = MRunning (mk_m (pc0 + length (dims_code dims)) (r' :: t) vs ps (dims_env_m dims e) sc false).
+Proof.
+  induction dims as [|d dims IH]; intros pc0 r t vs ps e sc Hc.
+  - exists r. cbn. do 2 f_equal. lia.
+  - change (dims_code (d :: dims)) with ([(IAlloc (snd (fst d)), snd d); (IVarPathName (fst d), snd d); (ICopyAToVarPath, snd d)] ++ dims_code dims) in *.
+    pose proof (code_at_app_l _ _ _ _ Hc) as H3. pose proof (code_at_app_r _ _ _ _ Hc) as Hr. cbn [length] in Hr.
+    assert (N0 : nth_error code pc0 = Some (IAlloc (snd (fst d)), snd d)) by (replace pc0 with (pc0 + 0) by lia; apply (code_at_nth _ _ _ 0 _ H3); reflexivity).
+    assert (N1 : nth_error code (S pc0) = Some (IVarPathName (fst d), snd d)) by (replace (S pc0) with (pc0 + 1) by lia; apply (code_at_nth _ _ _ 1 _ H3); reflexivity).
+    assert (N2 : nth_error code (S (S pc0)) = Some (ICopyAToVarPath, snd d)) by (replace (S (S pc0)) with (pc0 + 2) by lia; apply (code_at_nth _ _ _ 2 _ H3); reflexivity).
+    destruct (IH (pc0 + 3) (mk_regs (default_of (snd (fst d))) (rb r) (rc r) (rd r)) t vs ps
+                 (assign (touch e (fst d)) (fst d) (default_of (snd (fst d)))) sc Hr) as [r' Hn].
+    exists r'. rewrite app_length. cbn [length]. change (3 + length (dims_code dims)) with (S (S (S (length (dims_code dims))))).
+    erewrite (ForLoops.stepn_step num_text is_negative) by (unfold Machine.step; cbn [Machine.pc]; rewrite N0; reflexivity).
+    unfold next, set_a, set_regs, cur. cbn [rstack ra rb rc rd Machine.pc vstack pstack mvars mscreen mskip].
+    erewrite (ForLoops.stepn_step num_text is_negative) by (unfold Machine.step; cbn [Machine.pc]; rewrite N1; reflexivity).
+    unfold next. cbn [rstack Machine.pc vstack pstack mvars mscreen mskip].
+    erewrite (ForLoops.stepn_step num_text is_negative) by (unfold Machine.step; cbn [Machine.pc]; rewrite N2; reflexivity).
+    unfold next, cur. cbn [rstack ra Machine.pc vstack pstack mvars mscreen mskip].
+    replace (S (S (S pc0))) with (pc0 + 3) by lia. rewrite Hn. f_equal. change (dims_env_m (d :: dims) e) with (dims_env_m dims (assign (touch e (fst d)) (fst d) (default_of (snd (fst d))))).
+    f_equal. lia.
+Qed.
+
+(** ** Translation validation of whole programs: an instruction list accepted by [check_program]
+    behaves as the reference semantics of the program prescribe - for every fuel, i.e. for runs of
+    any length: same end (normal, or the same error at the same position), same screen, and on a
+    normal end the same variables. *)
+Theorem check_program_sound k dims p code : check_program k dims p code = true ->
+  forall fuel,
+  match Sem.exec_program num_text is_negative fuel p (mk_state (init_env dims) dev0) with
+  | Done st' => exists n s', (forall m, n <= m -> Machine.run num_text is_negative m code m0 = MHalted s') /\
+                             mvars s' = vars st' /\ mscreen s' = screen st'
+  | Failed x q st' => exists n s', (forall m, n <= m -> Machine.run num_text is_negative m code m0 = MError x q s') /\ mscreen s' = screen st'
+  | StepZero q st' => exists n s', (forall m, n <= m -> Machine.run num_text is_negative m code m0 = MStepZero q s') /\ mscreen s' = screen st'
+  | OutOfFuel => True
+  end.
+Proof.
+  unfold check_program. intros H fuel.
+  apply andb_true_iff in H. destruct H as [H Hb]. apply andb_true_iff in H. destruct H as [Hd He].
+  destruct (env_eq_dec (dims_env_m dims []) (init_env dims)) as [Eenv|]; [|discriminate].
+  destruct (Validate.check_block k code p (length (dims_code dims))) as [len|] eqn:Eb; [|discriminate].
+  apply instr_at_nth in Hb. apply slice_is_code_at in Hd.
+  destruct (run_dims code dims 0 regs0 [] [] [] [] dev0 Hd) as [r1 Hn]. change (mk_m 0 [regs0] [] [] [] dev0 false) with m0 in Hn.
+  rewrite Eenv in Hn. cbn [Nat.add] in Hn.
+  set (n0 := length (dims_code dims)) in *.
+  pose proof (check_block_sound k code p n0 len Eb fuel (mk_state (init_env dims) dev0) r1 [] [] []) as S.
+  rewrite exec_program_blockf.
+  change (mk_m n0 [r1] [] [] (init_env dims) dev0 false) with (boundary n0 r1 [] [] [] (mk_state (init_env dims) dev0)) in Hn.
+  destruct (blockf fuel p (mk_state (init_env dims) dev0)) as [st'|x q st'|q st'|].
+  - destruct S as (n & r2 & Hs). exists (n0 + n + 1), (boundary (n0 + len) r2 [] [] [] st'). split; [|split; reflexivity].
+    intros m Hm. apply (run_stepn_stop num_text is_negative (n0 + n + 1)); [|exact I|exact Hm].
+    rewrite (stepn_add _ _ (n0 + n) 1), (stepn_add _ _ n0 n), Hn, Hs. rewrite stepn_one. unfold Machine.step, boundary. cbn [Machine.pc].
+    rewrite Hb. reflexivity.
+  - destruct S as (n & s' & Hs & Hsc). exists (n0 + n), s'. split; [|exact Hsc].
+    intros m Hm. apply (run_stepn_stop num_text is_negative (n0 + n)); [|exact I|exact Hm]. rewrite stepn_add, Hn. exact Hs.
+  - destruct S as (n & s' & Hs & Hsc). exists (n0 + n), s'. split; [|exact Hsc].
+    intros m Hm. apply (run_stepn_stop num_text is_negative (n0 + n)); [|exact I|exact Hm]. rewrite stepn_add, Hn. exact Hs.
+  - exact I.
+Qed.
+
 End WithNumberText.
